@@ -18,6 +18,7 @@ func genFields() {
 		l.strList("fields"+ty, fs)
 		if fd := p.funcDecl(ty + ".DeepCopy"); fd != nil {
 			l.strList("deepCopy"+ty, literalKeys(fd, ty))
+			l.tripleList("deepCopySources"+ty, literalSources(fd, ty))
 		}
 	}
 	root := loadDir(".")
@@ -49,6 +50,63 @@ func genFields() {
 		l.strList("compiledTaskAssignedLater", later)
 	}
 	l.write()
+}
+
+// literalSources: for the first composite literal of type `ty` in fd, every (key, kind, source
+// field): how the value of the key is obtained — "field" (x.F), "deepcopy.<Fn>" (deepcopy.Fn(x.F)),
+// "DeepCopy" (x.F.DeepCopy()), anything else "other" with the printed expression as source.  The
+// copy is faithful only if every key is taken from the field OF THE SAME NAME.
+func literalSources(fd *ast.FuncDecl, ty string) [][3]string {
+	var out [][3]string
+	found := false
+	selField := func(e ast.Expr) (string, bool) {
+		if se, ok := e.(*ast.SelectorExpr); ok {
+			if _, ok := se.X.(*ast.Ident); ok {
+				return se.Sel.Name, true
+			}
+		}
+		return "", false
+	}
+	ast.Inspect(fd, func(n ast.Node) bool {
+		if found {
+			return false
+		}
+		cl, ok := n.(*ast.CompositeLit)
+		if !ok || cl.Type == nil || src(cl.Type) != ty {
+			return true
+		}
+		found = true
+		for _, e := range cl.Elts {
+			kv, ok := e.(*ast.KeyValueExpr)
+			if !ok {
+				continue
+			}
+			key := src(kv.Key)
+			if f, ok := selField(kv.Value); ok {
+				out = append(out, [3]string{key, "field", f})
+				continue
+			}
+			if c, ok := kv.Value.(*ast.CallExpr); ok {
+				if se, ok := c.Fun.(*ast.SelectorExpr); ok {
+					if id, ok := se.X.(*ast.Ident); ok && id.Name == "deepcopy" && len(c.Args) == 1 {
+						if f, ok := selField(c.Args[0]); ok {
+							out = append(out, [3]string{key, "deepcopy." + se.Sel.Name, f})
+							continue
+						}
+					}
+					if se.Sel.Name == "DeepCopy" && len(c.Args) == 0 {
+						if f, ok := selField(se.X); ok {
+							out = append(out, [3]string{key, "DeepCopy", f})
+							continue
+						}
+					}
+				}
+			}
+			out = append(out, [3]string{key, "other", src(kv.Value)})
+		}
+		return false
+	})
+	return out
 }
 
 func joinS(xs []string) string {
